@@ -301,6 +301,45 @@ fn families() -> Vec<Family> {
             declared: |b| be(b, 0, 2).map(|l| 2 + l),
             parsers: vec![("parse_digitally_signed_old", |i| mk(parse_digitally_signed_old(i), |s| format!("{:?}", conv::signed(s)), |o, s| visit::signed(o, s)))],
         },
+        Family {
+            // key-exchange content followed by a signature, through the composing parser, with the caller's `ext` flag both ways.
+            // The signature is written in either form whatever the flag (a peer may send the other form), and half of the time its
+            // first bytes are shaped so that the *other* reading declares a length close to what is available: a parser that picks
+            // the reading by looking at how many bytes follow shows up as a value that changes with the suffix.
+            name: "content-and-signature",
+            gen: |t| {
+                let mut e = Enc::new();
+                if t.bool() {
+                    MDh { p: t.small_blob(40), g: t.small_blob(4), ys: t.small_blob(40) }.encode(&mut e);
+                } else {
+                    gen_ecdh(t).encode(&mut e);
+                }
+                let mut data = t.small_blob(120);
+                let with_alg = t.bool();
+                if t.bool() && data.len() >= 2 {
+                    // legacy form read as hash/sign + length: the length is data[0..2]; new form read as legacy: the length is (hash, sign)
+                    let rest = data.len() - 2;
+                    let v = (rest + t.below(90)).saturating_sub(t.below(3)) as u16;
+                    data[0] = (v >> 8) as u8;
+                    data[1] = v as u8;
+                }
+                let alg = if with_alg {
+                    let l = data.len() + 2;
+                    Some(if t.bool() { (t.u8(), t.u8()) } else { (((l + t.below(90)) >> 8) as u8, (l + t.below(90)) as u8) })
+                } else {
+                    None
+                };
+                MSigned { alg, data }.encode(&mut e);
+                e
+            },
+            declared: |_| None,
+            parsers: vec![
+                ("parse_content_and_signature(dh,ext)", |i| mk(parse_content_and_signature(i, parse_dh_params, true), |(d, s)| format!("{:?} {:?}", conv::dh(d), conv::signed(s)), |o, (d, s)| { visit::dh(o, d); visit::signed(o, s) })),
+                ("parse_content_and_signature(dh,legacy)", |i| mk(parse_content_and_signature(i, parse_dh_params, false), |(d, s)| format!("{:?} {:?}", conv::dh(d), conv::signed(s)), |o, (d, s)| { visit::dh(o, d); visit::signed(o, s) })),
+                ("parse_content_and_signature(ecdh,ext)", |i| mk(parse_content_and_signature(i, parse_ecdh_params, true), |(d, s)| format!("{:?} {:?}", conv::ecdh(d), conv::signed(s)), |o, (d, s)| { visit::ecdh(o, d); visit::signed(o, s) })),
+                ("parse_content_and_signature(ecdh,legacy)", |i| mk(parse_content_and_signature(i, parse_ecdh_params, false), |(d, s)| format!("{:?} {:?}", conv::ecdh(d), conv::signed(s)), |o, (d, s)| { visit::ecdh(o, d); visit::signed(o, s) })),
+            ],
+        },
     ]
 }
 
